@@ -104,6 +104,8 @@ namespace occa {
         // Get argument
         arg.expr = tokenContext.parseExpression(smntContext,
                                                 parser);
+        // A NULL expression means the argument could not be parsed (error already reported)
+        success &= !!arg.expr;
         if (!success) {
           tokenContext.pop();
           arg.clear();
